@@ -20,7 +20,7 @@ from ..core import EventLog, RunResult, HarnessError, h64
 ENGINE = "histsim_registry"
 NEEDS_MPILOT = False   # the pool worker must NOT import mpilot: each history starts from a clean process
 ISOLATES = True        # this engine forks one child per history itself
-BUDGET = {"C19": {"quick": 2400, "thorough": 60000}}
+BUDGET = {"C19": {"quick": 7200, "thorough": 80000}}
 
 CMD_NAMES = ("Foo", "Bar", "Baz", "Qux", "Quux", "Corge", "Grault", "Sum")
 BUILTIN = {
